@@ -1318,4 +1318,65 @@ theorem closeness_by_bfs (N : Nat) (A : List (List Bool)) (i : Nat) (hi : i < N)
 example : Net.dist 4 (adjFn (adjMat 4 [(0, 1), (1, 2)])) 0 2 = some 2 ∧
     Net.dist 4 (adjFn (adjMat 4 [(0, 1), (1, 2)])) 0 3 = none := by decide +kernel
 
+/-- **`rndF32 (2^k · q) = 2^k · rndF32 q`** while neither side is subnormal: a rescaling of the
+values or of the time unit by a power of two changes no rounding decision of the float kernel
+(why the extreme-but-exact rescalings of the correspondence must leave the compiled kernels'
+answers unchanged) -/
+theorem rndF32_pow2_rescaling (q : Rat) (k : Int) (h1 : q ≠ 0 → -126 ≤ lg |q|)
+    (h2 : q ≠ 0 → -126 ≤ lg |q| + k) : rndF32 (pow2 k * q) = pow2 k * rndF32 q :=
+  rndF32_scale q k h1 h2
+
+example : rndF32 (pow2 40 * (1 / 3)) = pow2 40 * rndF32 (1 / 3) := by decide +kernel
+/-- in the subnormal range the identity fails: `2^-149 · 3/2` is a tie, `3/2` is a float -/
+example : rndF32 (pow2 (-149) * (3 / 2)) ≠ pow2 (-149) * rndF32 (3 / 2) := by decide +kernel
+
+/-- **the slope comparisons of the float kernel are invariant under power-of-two rescalings**
+`x ↦ 2^a x`, `t ↦ 2^c t` as long as no difference and no quotient is or becomes subnormal
+(`NoUfl`): the rounded slope of the rescaled series is `2^(a-c)` times the rounded slope, so every
+decision `slope_k < slope_j` of `kernelNR rndF32` is the same. -/
+theorem f32_slope_comparisons_pow2_invariant (x : List Val) (t : List Rat) (a c : Int) (i k j : Nat)
+    (hk : NoUfl (t.getD k 0 - t.getD i 0) c)
+    (hkx : ∀ dx, vsub (valAt x k) (valAt x i) = some dx →
+      NoUfl dx a ∧ NoUfl (rndF32 dx / rndF32 (t.getD k 0 - t.getD i 0)) (a - c))
+    (hj : NoUfl (t.getD j 0 - t.getD i 0) c)
+    (hjx : ∀ dx, vsub (valAt x j) (valAt x i) = some dx →
+      NoUfl dx a ∧ NoUfl (rndF32 dx / rndF32 (t.getD j 0 - t.getD i 0)) (a - c)) :
+    slopeValR rndF32 (x.map (Option.map (pow2 a * ·))) (t.map (pow2 c * ·)) i k
+        = (slopeValR rndF32 x t i k).map (pow2 (a - c) * ·) ∧
+    vlt (slopeValR rndF32 (x.map (Option.map (pow2 a * ·))) (t.map (pow2 c * ·)) i k)
+        (slopeValR rndF32 (x.map (Option.map (pow2 a * ·))) (t.map (pow2 c * ·)) i j)
+      = vlt (slopeValR rndF32 x t i k) (slopeValR rndF32 x t i j) :=
+  ⟨slopeValR_scale x t a c i k hk hkx, slopeCmpR_scale x t a c i k j hk hkx hj hjx⟩
+
+example : NoUfl (7 / 10) 40 ∧ NoUfl (7 / 10) (-100) := by
+  have h : lg |(7 / 10 : Rat)| = -1 := by decide +kernel
+  constructor <;> constructor <;> intro _ <;> rw [h] <;> omega
+
+/-- **horizontal graph of float64 callers' data**: the constructor converts the series to
+binary32 (`to_cy(time_series, FIELD)`, i.e. `rndF32` on every sample).  Whenever that
+conversion merges no two distinct samples (`KeepsApart`), the kernel and the constructor return
+on the converted series exactly what they return on the caller's values — and therefore the
+matrix realises `HVisible` of the *caller's* values.  (Monotonicity of `rndF32` is what turns
+"injective on the samples" into "order preserving".) -/
+theorem hvg_float64_callers (x : List Val) (h : KeepsApart x) (N : Nat) (tm : Option (List Rat))
+    (missing : Bool) :
+    kernelH (x.map (Option.map rndF32)) N = kernelH x N ∧
+    classLog (x.map (Option.map rndF32)) tm missing true = classLog x tm missing true ∧
+    ∃ A, classMat (x.map (Option.map rndF32)) tm true true = .ok A ∧
+      ∀ a b, a < x.length → b < x.length →
+        (Mat.at A a b = true ↔ (a < b ∧ HVisible x a b) ∨ (b < a ∧ HVisible x b a)) := by
+  have ho := ordOn_rndF32 x h
+  refine ⟨kernelH_ordOn rndF32 x ho N, classLog_hvg_ordOn rndF32 x ho tm missing, ?_⟩
+  obtain ⟨A, hA, hiff⟩ := class_hvg_matrix_iff x tm
+  refine ⟨A, ?_, hiff⟩
+  rw [class_matrix_is_log] at hA ⊢
+  rw [classLog_hvg_ordOn rndF32 x ho tm true, List.length_map]
+  exact hA
+
+example : KeepsApart [some (1 / 3), none, some (2 / 3), some (1 / 3)] := by
+  intro a b ha hb
+  simp only [List.mem_cons, Option.some.injEq, List.not_mem_nil, or_false, reduceCtorEq,
+    false_or] at ha hb
+  rcases ha with rfl | rfl | rfl <;> rcases hb with rfl | rfl | rfl <;> decide +kernel
+
 end Pyunicorn.Visibility
